@@ -148,6 +148,12 @@ EXACT = {
     # overrides the cached protocol methods themselves (transcribed: Model.v EigKron)
     "KroneckerProductLinearOperator": ({"_cholesky", "_svd", "_symeig", "diagonalization", "inv_quad_logdet",
                                         "root_decomposition", "root_inv_decomposition"}, set()),
+    # hand _cholesky / _svd / _symeig / inv_quad_logdet / the Lanczos internals to their one base operator and keep the
+    # base-class cached methods (transcribed: Model.v pf_deleg)
+    "BlockDiagLinearOperator": ({"_cholesky", "_root_decomposition", "_root_inv_decomposition", "_svd", "_symeig",
+                                 "inv_quad_logdet", "zero_mean_mvn_samples"}, set()),
+    "BatchRepeatLinearOperator": ({"_cholesky", "_root_decomposition", "_root_inv_decomposition", "_svd", "_symeig",
+                                   "inv_quad_logdet"}, set()),
 }
 # how the public cached methods must be decorated for the transcription to apply: (cached?, ignore_args?, name)
 BASE_DECOR = {"root_decomposition": (True, False, "root_decomposition"),
@@ -180,7 +186,8 @@ def profile_of(op, ids):
     cls = type(op)
     name = cls.__name__
     kid_ids = [ids[id(k)] for k in children(op)]
-    p = {"cls": name, "td_name": None, "td_kids": [], "chol_ignore": False, "eig": None, "kron": None, "cm_root": None,
+    p = {"cls": name, "td_name": None, "td_kids": [], "chol_ignore": False, "eig": None, "kron": None, "deleg": None,
+         "cm_root": None,
          "precond": False, "queries_off": set(), "child_only": False,
          "sum": isinstance(op, O.SumLinearOperator), "iqld_to": name == "CatLinearOperator"}
     c, ign, nm, w = cached_info(cls.to_dense)
@@ -220,6 +227,9 @@ def profile_of(op, ids):
     p["queries_off"] = set(off)
     if name == "KroneckerProductLinearOperator":
         p["kron"] = [ids[id(k)] for k in op.linear_ops]
+    if name in ("BlockDiagLinearOperator", "BatchRepeatLinearOperator"):
+        p["kron"] = [ids[id(op.base_linear_op)]]
+        p["deleg"] = (name == "BlockDiagLinearOperator")
     if name == "AddedDiagLinearOperator":
         p["precond"] = True
         if isinstance(op._diag_tensor, O.ConstantDiagLinearOperator):
